@@ -484,6 +484,28 @@ class C10(Prop):
             h = History(ops, {"cfg": cfg.line, "kind": cfg.kind, "ty": cfg.ty, "feats": sorted(feats),
                               "reset_at": reset_at, "pairs": pairs})
             hs.append(h)
+        # fixed-output types with chunk/ratio on (or one ulp from) an integer: whatever arithmetic reset() uses for the sizes it
+        # recomputes must round like the constructor's.  reset() directly after construction or after a few calls.
+        for i in range(max(12, self.n // 4)):
+            kind = rng.choice(["fastout", "sincout"])
+            num, den = rng.choice([(7, 10), (13, 10), (3, 10), (9, 10), (11, 10), (6, 10), (17, 10), (23, 10), (441, 160),
+                                   (160, 441), (441, 480), (480, 441), (3, 7), (7, 3), (1, 3), (147, 320)])
+            ratio = num / den
+            chunk = num * rng.randint(1, max(1, 1500 // num))
+            cfg = gen.gen_cfg(rng, kinds=[kind], probe=True, max_chunk=4096)
+            p = cfg.line.split()
+            p[2] = hx(ratio)
+            p[5 if kind == "fastout" else 9] = str(chunk)
+            cfg.line = " ".join(p)
+            ops = [cfg.new(0)] + ["0 proc - n m r5"] * rng.randint(0, 2)
+            reset_at = len(ops)
+            ops += ["0 reset", cfg.new(1)]
+            pairs = 0
+            for _ in range(rng.randint(2, 4)):
+                ops += ["0 proc - n m r9", "1 proc - n m r9"]
+                pairs += 1
+            hs.append(History(ops, {"cfg": cfg.line, "kind": kind, "ty": cfg.ty, "feats": ["failed", "integer-boundary"],
+                                    "reset_at": reset_at, "pairs": pairs}))
         return hs
 
     def nontrivial(self, h):
@@ -711,6 +733,25 @@ class C13(Prop):
                 ops.append(op)
                 ops.append(retarget(op, 1))
             hs.append(History(ops, {"cfg": cfg.line, "kind": cfg.kind, "ty": cfg.ty, "feats": sorted(kinds),
+                                    "bad_at": bad_at, "bad_kind": bad_kind}))
+        # a malformed call while a ratio ramp is pending (the sizes a call demands then differ from those at either end of the
+        # ramp): output or input one frame short of what the getters ask for
+        for i in range(max(10, self.n // 4)):
+            cfg = gen.gen_cfg(rng, kinds=gen.ASYNC, max_chunk=400)
+            if cfg.maxrel <= 1 or cfg.chunk < 60:
+                continue
+            ops = [cfg.new(0), cfg.new(1)] + ["0 proc - n m r3", "1 proc - n m r3"] * rng.randint(0, 2)
+            r, rel = gen.in_range_ratio(rng, cfg, calm=True)
+            ops += [f"0 ratio {hx(r)} 1", f"1 ratio {hx(r)} 1"]
+            bad_at, bad_kind = [], {}
+            for _ in range(rng.randint(1, 2)):
+                m, kname = rng.choice([("proc - n n-1 r3", "out-short"), ("proc - n-1 m r3", "in-short"),
+                                       ("proc - n n-2 r3", "out-short")])
+                bad_at.append(len(ops))
+                bad_kind[len(ops)] = kname
+                ops.append(f"0 {m}")
+            ops += ["0 proc - n n r3", "1 proc - n n r3"] * rng.randint(1, 3)
+            hs.append(History(ops, {"cfg": cfg.line, "kind": cfg.kind, "ty": cfg.ty, "feats": ["pending-ramp"] + sorted(set(bad_kind.values())),
                                     "bad_at": bad_at, "bad_kind": bad_kind}))
         # constructors
         for i in range(max(10, self.n // 6)):
@@ -2157,7 +2198,7 @@ class C14(Prop):
                 n = rng.randint(50, 3000)
                 g = math.gcd(cfg.ri, cfg.ro)
                 fi, fo = fft_sizes(cfg.ri, cfg.ro, cfg.chunk // (1 if cfg.kind == "fftio" else cfg.sub), cfg.kind == "fftout")
-                per_in = max(1, cfg.chunk if cfg.kind != "fftout" else cfg.chunk / ratio)
+                per_in = fi if cfg.kind == "fftio" else max(1, cfg.chunk if cfg.kind != "fftout" else cfg.chunk / ratio)
                 need_in = n + 3 * fi + 100
             pre = []
             if cfg.kind in gen.ASYNC and cfg.kind.startswith("fast") and rng.random() < 0.5:
@@ -2178,6 +2219,17 @@ class C14(Prop):
             ops = [cfg.new(0)] + pre + [f"0 proc - n m k{n} dump"] * ncalls
             hs.append(History(ops, {"cfg": cfg.line, "kind": cfg.kind, "ty": cfg.ty, "feats": ["impulse"], "n": n,
                                     "ratio": ratio}))
+        # large FFT blocks (small-gcd rate pairs, big chunks): the delay must stay half a block whatever the block length
+        for (ri, ro, chunk) in [(44100, 44110, 64), (48000, 44090, 64), (44100, 48000, 8192), (1000, 1001, 5000)][:2 if self.tier == "quick" else 4]:
+            kind = rng.choice(gen.FFT)
+            ty = rng.choice(["f64", "f32"])
+            line = f"{ty} fftio {ri} {ro} {chunk} 1" if kind == "fftio" else f"{ty} {kind} {ri} {ro} {chunk} 1 1"
+            fi, fo = fft_sizes(ri, ro, chunk, kind == "fftout")
+            n = rng.randint(50, 3000)
+            per_in = fi if kind == "fftio" else (chunk if kind == "fftin" else chunk * ri / ro)
+            ncalls = int((n + 3 * fi + 100) / per_in) + 3
+            hs.append(History([f"0 new {line}"] + [f"0 proc - n m k{n} dump"] * ncalls,
+                              {"cfg": line, "kind": kind, "ty": ty, "feats": ["impulse", "large-block"], "n": n, "ratio": ro / ri}))
         return hs
 
     def distinct_key(self, h):
